@@ -25,6 +25,7 @@ from fractions import Fraction as Fr
 from verifkit import pat
 from verifkit.absrun import isinstance_names, Obj, Runner, StandIn
 from verifkit.core import Outcome
+from verifkit.model import AnalysisError
 from verifkit.finite import Undecided
 
 ASSUMPTIONS = [
@@ -312,11 +313,32 @@ class Interp:
         raise Undecided(U(e)[:40])
 
 
+def simple_decider(ctx):
+    """the pairwise decision function of two simple shapes: by name, or -- when the helper was renamed -- the unique
+    SimpleShape method that SimpleShape._contains_shape calls under `isinstance(other, SimpleShape)`"""
+    q = "shape.SimpleShape.__contains_simple"
+    if q in ctx.model.funcs:
+        return ctx.fn(q)
+    host = ctx.fn("shape.SimpleShape._contains_shape")
+    inf = ctx.inf(host.qname)
+    found = []
+    for st in ast.walk(host.node):
+        if isinstance(st, ast.If) and isinstance(st.test, ast.Call) and pat.is_name(st.test.func, "isinstance") \
+                and len(st.test.args) == 2 and pat.is_name(st.test.args[1], "SimpleShape"):
+            for r in st.body:
+                if isinstance(r, ast.Return) and isinstance(r.value, ast.Call):
+                    found += [t for t in inf.targets(r.value, ("call",)) if t.cls == "SimpleShape"]
+    if len({t.qname for t in found}) != 1:
+        raise AnalysisError(f"anchor function {q} not found in {ctx.model.src} (and no unique callee under "
+                            f"isinstance(other, SimpleShape) in {host.qname})")
+    return found[0]
+
+
 def r03_1(ctx):
     out = Outcome("R03.1", "SimpleShape.__contains_simple agrees with the geometric truth table of two simple closed "
                            "curves on every configuration x orientation pair x consultable fact", floor=40)
     out.exhaustive = True
-    fn = ctx.fn("shape.SimpleShape.__contains_simple")
+    fn = simple_decider(ctx)
     wrong = {}
     n = 0
     for row in rows():
@@ -613,6 +635,7 @@ def r03_3(ctx):
                                     f"wrong answer for an {kind} operand: {got!r}", where=fn.where())
     # dispatch of SimpleShape._contains_shape
     fn = ctx.fn("shape.SimpleShape._contains_shape")
+    decider = simple_decider(ctx)
     S, X = Obj("S"), Obj("X")
     called = []
 
@@ -620,7 +643,7 @@ def r03_3(ctx):
         if name == "isinstance":
             names = isinstance_names(call, args)
             return any(n in ctx.model.mro("SimpleShape") for n in names)
-        if recv is S and name and name.endswith("contains_simple"):
+        if recv is S and name and name.lstrip("_") == decider.name.lstrip("_"):
             called.append(args)
             return "PAIRWISE"
         return NotImplemented
